@@ -495,7 +495,9 @@ def control_value_sites(db, rep):
     gc = prog.fn('getcontrols', 'qmail-send.c')
     bad = {}
     lists = {}
-    for scen, val in (('holding 0', 0), ('holding 5', 5), ('absent', None)):
+    cells = {}          # control file -> the object its number is read into (discovered by a first run, whatever it is called)
+    SENT = {'control/queuelifetime': 777, 'control/concurrencylocal': 7, 'control/concurrencyremote': 8}
+    for scen, val in (('discovery', None), ('holding 0', 0), ('holding 5', 5), ('absent', None)):
         ints = {}
 
         class CV(ControlsHooks):
@@ -519,16 +521,21 @@ def control_value_sites(db, rep):
                     self.ends.append((libtab._one(val_), dict(E.store), E.trace.list()))
         H = CV()
         e = Engine(db, prog, H, max_states=60000)
-        e.run(gc, {'G:lifetime': fs(777), 'G:concurrency[0]': fs(7), 'G:concurrency[1]': fs(8)})
+        e.run(gc, {cells[f_]: fs(SENT[f_]) for f_ in cells})
         rep.count_states(e.states, e.transitions)
         if len(H.ends) != 1 or H.ends[0][0] != 1:
             raise AnalysisBroken('getcontrols: %d ends with the numeric control files %s' % (len(H.ends), scen))
         st, tr = H.ends[0][1], H.ends[0][2]
-        for fnm, key, cell, dflt in (('control/queuelifetime', 'controls:queuelifetime-is-taken-as-written(0-included)', 'G:lifetime', 777),
-                                     ('control/concurrencylocal', 'controls:concurrency-is-taken-as-written(0-holds-the-channel)', 'G:concurrency[0]', 7),
-                                     ('control/concurrencyremote', 'controls:concurrency-is-taken-as-written(0-holds-the-channel)', 'G:concurrency[1]', 8)):
-            if fnm not in ints:
-                raise AnalysisBroken('getcontrols does not read %s' % fnm)
+        if scen == 'discovery':
+            for fnm in SENT:
+                if not ints.get(fnm):
+                    raise AnalysisBroken('getcontrols does not read %s into a named object' % fnm)
+                cells[fnm] = ints[fnm]
+            continue
+        for fnm, key in (('control/queuelifetime', 'controls:queuelifetime-is-taken-as-written(0-included)'),
+                         ('control/concurrencylocal', 'controls:concurrency-is-taken-as-written(0-holds-the-channel)'),
+                         ('control/concurrencyremote', 'controls:concurrency-is-taken-as-written(0-holds-the-channel)')):
+            cell, dflt = cells[fnm], SENT[fnm]
             got = libtab._one(st.get(cell))
             want = dflt if val is None else val
             if got != want:
